@@ -19,7 +19,7 @@ pub mod iter;
 pub mod prelude {
     pub use crate::iter::{
         FromParallelIterator, IndexedParallelIterator, IntoParallelIterator, IntoParallelRefIterator,
-        IntoParallelRefMutIterator, ParallelBridge, ParallelIterator,
+        IntoParallelRefMutIterator, ParallelBridge, ParallelExtend, ParallelIterator,
     };
     pub use crate::slice::{ParallelSlice, ParallelSliceMut};
 }
@@ -104,6 +104,30 @@ where
     r
 }
 
+/// `rayon::spawn`: fire-and-forget work on the pool. Inside a simulated run it becomes a detached
+/// simulated task (it may run at any later scheduling point, or not before the caller returns).
+pub fn spawn<F>(f: F)
+where
+    F: FnOnce() + Send + 'static,
+{
+    if simctx::active() {
+        let _ = shuttle::thread::spawn(f);
+    } else {
+        f();
+    }
+}
+pub use spawn as spawn_fifo;
+
+/// `rayon::in_place_scope`: like `scope`.
+pub fn in_place_scope<'scope, F, R>(f: F) -> R
+where
+    F: FnOnce(&Scope<'scope>) -> R,
+{
+    scope(f)
+}
+pub use in_place_scope as in_place_scope_fifo;
+pub use scope as scope_fifo;
+
 #[derive(Debug, Default)]
 pub struct ThreadPoolBuilder {
     n: usize,
@@ -147,5 +171,26 @@ impl ThreadPool {
     }
     pub fn current_num_threads(&self) -> usize {
         current_num_threads()
+    }
+    pub fn join<A, B, RA, RB>(&self, a: A, b: B) -> (RA, RB)
+    where
+        A: FnOnce() -> RA + Send,
+        B: FnOnce() -> RB + Send,
+        RA: Send,
+        RB: Send,
+    {
+        join(a, b)
+    }
+    pub fn scope<'scope, F, R>(&self, f: F) -> R
+    where
+        F: FnOnce(&Scope<'scope>) -> R,
+    {
+        scope(f)
+    }
+    pub fn spawn<F>(&self, f: F)
+    where
+        F: FnOnce() + Send + 'static,
+    {
+        spawn(f)
     }
 }
